@@ -22,6 +22,7 @@ class Obligation:
     meta: dict = field(default_factory=dict)      # line, path condition text, replay hints
     timeout: float | None = None
     backends: tuple = ("qqnf", "poscert", "z3", "cvc5")
+    thunk: tuple | None = None    # (callable, args): decided by running the callable in the worker (returns a result dict)
 
 
 _OBS: list[Obligation] = []
@@ -40,6 +41,13 @@ def _split_and(g):
 def discharge(ob: Obligation, tier="quick"):
     """returns dict(verdict, backend, seconds, reason, model)"""
     t0 = time.time()
+    if ob.thunk is not None:
+        d = dict(ob.thunk[0](*ob.thunk[1]))
+        d.setdefault("seconds", time.time() - t0)
+        d.setdefault("model", None)
+        d.setdefault("reason", "")
+        d.setdefault("backend", "thunk")
+        return d
     if ob.decided is not None:
         d = dict(ob.decided)
         d.setdefault("backend", "ground-exact")
@@ -172,14 +180,23 @@ def _work(i):
     return i, r
 
 
+def _die_with_parent():
+    """pool workers must not outlive a killed parent (a `timeout` on the check would otherwise leave them spinning)"""
+    try:
+        import ctypes, signal
+        ctypes.CDLL("libc.so.6").prctl(1, signal.SIGKILL)
+    except Exception:
+        pass
+
+
 def discharge_all(obs, tier="quick", workers=None):
     global _OBS, _TIER
     _OBS = obs
     _TIER = tier
     workers = workers or int(os.environ.get("TPV_WORKERS", "16"))
     results = [None] * len(obs)
-    heavy = [i for i, o in enumerate(obs) if o.decided is None]
-    light = [i for i, o in enumerate(obs) if o.decided is not None]
+    heavy = [i for i, o in enumerate(obs) if o.decided is None or o.thunk is not None]
+    light = [i for i, o in enumerate(obs) if o.decided is not None and o.thunk is None]
     for i in light:
         results[i] = _work(i)[1]
     if heavy:
@@ -188,7 +205,7 @@ def discharge_all(obs, tier="quick", workers=None):
                 results[i] = _work(i)[1]
         else:
             ctx = mp.get_context("fork")
-            with ctx.Pool(min(workers, len(heavy))) as pool:
+            with ctx.Pool(min(workers, len(heavy)), initializer=_die_with_parent) as pool:
                 for i, r in pool.imap_unordered(_work, heavy, chunksize=1):
                     results[i] = r
     return results
